@@ -129,13 +129,25 @@ _CMP = {
 _UNSIGNED_ORDER = (isa.JGT, isa.JGE, isa.JLT, isa.JLE)
 
 
+ABSTRACT_MUL = [False]     # set by the caller around run(); never in concrete mode
+
+
 def alu_scalar(code, a, b, bits):
     """result of `a <op>= b` for two bit-vectors of width `bits`"""
     mask = bv(bits - 1, bits)
     zero = bv(0, bits)
     if code == isa.ADD: return a + b
     if code == isa.SUB: return a - b
-    if code == isa.MUL: return a * b
+    if code == isa.MUL:
+        if ABSTRACT_MUL[0] and not z3.is_bv_value(simp(a)) \
+                and not z3.is_bv_value(simp(b)):
+            # sound weakening for proofs: the product of two non-constant
+            # values is an uninterpreted function (arguments in a canonical
+            # order); see vc/bvutil.py
+            from ..bvutil import mul_uf
+            x, y = sorted((simp(a), simp(b)), key=lambda t: t.sexpr())
+            return mul_uf(bits)(x, y)
+        return a * b
     if code == isa.DIV: return z3.If(b == zero, zero, z3.UDiv(a, b))
     if code == isa.MOD: return z3.If(b == zero, a, z3.URem(a, b))
     if code == isa.OR: return a | b
